@@ -74,6 +74,11 @@ impl<T> Key<T> {
         &self.preimage
     }
 
+    #[cfg(feature = "verif-hooks")]
+    pub fn verif_hash(&self) -> &[u8] {
+        self.hash.as_slice()
+    }
+
     /// Converts the key into its preimage.
     pub fn into_preimage(self) -> T {
         self.preimage
